@@ -96,9 +96,21 @@ pub mod ext_time {
         forall|y: T| m.count(y) > 0 ==> #[trigger] heap_le(y, x)
     }
 
-    pub assume_specification<T, F: FnOnce(&T) -> bool> [Option::<T>::filter] (o: Option<T>, f: F) -> (r: Option<T>)
-        ensures match o {
-            None => r is None,
-            Some(x) => (call_ensures(f, (&x,), true) && r == Some(x)) || (call_ensures(f, (&x,), false) && r is None),
-        };
+}
+//@ region prelude_duration
+pub mod ext_dur {
+    use vstd::prelude::*;
+    use vstd::std_specs::cmp::{PartialEqSpec, PartialOrdSpec, OrdSpec};
+    use std::time::Duration;
+    use crate::ext_time::{dur_ns, int_cmp};
+    /// ASSUMED: Duration's order is the integer order of its nanosecond view
+    #[verifier::external_body]
+    pub broadcast proof fn axiom_duration_ord(a: Duration, b: Duration)
+        ensures #[trigger] a.cmp_spec(&b) == int_cmp(dur_ns(a), dur_ns(b)),
+    {}
+    #[verifier::external_body]
+    pub broadcast proof fn axiom_duration_obeys()
+        ensures #[trigger] <Duration as OrdSpec>::obeys_cmp_spec(),
+    {}
+    pub broadcast group axiom_duration_cmp { axiom_duration_ord, axiom_duration_obeys }
 }
